@@ -5,6 +5,7 @@ inlined recursively), then merges the outcomes whose visible state is identical 
 whose return value is a lazy `Choice`.  Two-way branches on a single GF(2)-affine bit are merged at the
 branch's immediate post-dominator (mux join) when both arms reach it with one state each.
 """
+import os
 import sys
 import time
 
@@ -960,7 +961,7 @@ class Interp:
             l2, h2 = lin.range()
             lo, hi = max(lo, l2), min(hi, h2)
         vals = None
-        if a.vals is not None and b.vals is not None and len(a.vals) * len(b.vals) <= 256:
+        if a.vals and b.vals and len(a.vals) * len(b.vals) <= 256:
             f = {"Add": lambda x, y: x + y, "Sub": lambda x, y: x - y, "Mul": lambda x, y: x * y}[op]
             vals = frozenset(f(x, y) for x in a.vals for y in b.vals)
             lo, hi = max(lo, min(vals)), min(hi, max(vals))
@@ -1941,20 +1942,38 @@ class Interp:
         for i, (ft, ff) in enumerate(zip(t.frames, f.frames)):
             if ft.id != ff.id or ft.block != ff.block and i < len(t.frames) - 1:
                 return None
+            f0 = st0.frames[i] if i < len(st0.frames) and st0.frames[i].id == ft.id else None
+            live = None
+            if i == len(t.frames) - 1:
+                from ..cfg import live_in
+                live = live_in(ft.fn)[ft.block] if ft.block < len(ft.fn["blocks"]) else None
             for j, (vt, vf) in enumerate(zip(ft.locals, ff.locals)):
-                mv = self.mux_val(e, vt, vf)
+                v0 = f0.locals[j] if f0 is not None and j < len(f0.locals) else None
+                mv = self._mux_slot(e, v0, vt, vf)
                 if mv is _FAIL:
-                    return None
+                    if live is not None and j not in live:
+                        # a temporary that is dead at the join (it will be overwritten before it is read again): its stale content
+                        # differs between the arms, which does not matter
+                        mv = None
+                    else:
+                        return None
                 m.frames[i].locals[j] = mv
         keys = set(t.heap) | set(f.heap)
         for k in keys:
-            mv = self.mux_val(e, t.heap.get(k), f.heap.get(k))
+            mv = self._mux_slot(e, st0.heap.get(k), t.heap.get(k), f.heap.get(k))
             if mv is _FAIL:
                 return None
             m.heap[k] = mv
         m.next_id = max(t.next_id, f.next_id)
         m.atoms_next = max(t.atoms_next, f.atoms_next)
         return m
+
+    def _mux_slot(self, e, v0, vt, vf):
+        """a slot both arms only *refined* (same value identity as before the branch, narrowed under the arm's assumptions) keeps its
+        pre-branch value: the refinements were consequences of facts that the merged state no longer carries"""
+        if isinstance(v0, IntVal) and isinstance(vt, IntVal) and isinstance(vf, IntVal) and v0.vid == vt.vid == vf.vid:
+            return v0
+        return self.mux_val(e, vt, vf)
 
     def mux_val(self, e, vt, vf):
         if vt is vf:
@@ -1967,15 +1986,28 @@ class Interp:
             bits = None
             if vt.bits is not None and vf.bits is not None:
                 bits = []
+                # e = XOR(mask) ^ c; p is an atom of e. Each arm's bit may still mention e's atoms (a value read before the branch,
+                # or refined under the arm's assumption): rewrite it as alpha*e ^ rest with rest free of p, evaluate the true arm at
+                # e = 1 and the false arm at e = 0, and the mux is affine exactly when the two differ by a constant k: rest_f ^ k*e
+                pbit = 1 << (e[0].bit_length() - 1)
+
+                def split_e(z):
+                    if z[0] & pbit:
+                        return 1, (z[0] ^ e[0], z[1] ^ e[1])
+                    return 0, z
                 for x, y in zip(vt.bits, vf.bits):
                     if x is None or y is None:
                         bits.append(None)
-                    elif x == y:
+                    elif x == y and not (x[0] & pbit):
                         bits.append(x)
                     else:
-                        dx = bx_xor(x, y)
-                        if dx[0] == 0:   # differ by constant 1: y ^ e
-                            bits.append(bx_xor(y, e))
+                        at, rt = split_e(x)
+                        _af, rf = split_e(y)
+                        xt1 = (rt[0], rt[1] ^ at)       # true arm at e = 1
+                        xf0 = rf                        # false arm at e = 0
+                        dx = bx_xor(xt1, xf0)
+                        if dx[0] == 0:
+                            bits.append(bx_xor(xf0, e) if dx[1] else xf0)
                         else:
                             bits.append(None)
                 bits = tuple(bits)
@@ -2059,6 +2091,8 @@ class Interp:
         if target is None:
             st.status = "diverged"
             return None
+        if target == "stay":
+            return None         # synthetic call issued by a summary: the caller continues from the result cell
         self.goto(st, st.top(), target)
         return None
 
